@@ -6,6 +6,8 @@
                    2 max-age panic, 3 summary without objectives (C02), 5 any other panic
           | (1 ((count sum ((q isnan value)...))...))  one entry per Write
           | (2)    an operation did not return (watchdog)
+          | (3 ((count sum nquantiles)...))  a summary WITHOUT objectives (nil/empty map), one entry per Write:
+                   count and sum must be exact (left fold of fadd), no quantile is exposed
    Oracles: (2) specification: construction refused exactly when the text says so; every operation returns;
    count/sum exact; quantile ranks are the objectives in increasing order; a quantile is NaN only if no
    observation is younger than (n-1)*d, and otherwise is a value whose rank is tolerated (rank_tol_ok in
@@ -20,7 +22,7 @@ Open Scope Z_scope.
 
 Definition iq := (f64 * bool * f64)%type.                 (* rank, isNaN, value *)
 Definition iw := (Z * f64 * list iq)%type.
-Inductive impl := INone (k : Z) | IWrites (ws : list iw) | IHung.
+Inductive impl := INone (k : Z) | IWrites (ws : list iw) | IHung | INoObj (ws : list (Z * f64 * Z)).
 Definition case := (opts * Z * list op * impl)%type.
 
 Definition d_opts (s : sx) : option opts :=
@@ -44,6 +46,7 @@ Definition d_impl (s : sx) : option impl :=
   | SL [SZ 0; SZ k] => Some (INone k)
   | SL [SZ 1; ws] => option_map IWrites (dL (dT3 dZ dF (dL (dT3 dF dB dF))) ws)
   | SL [SZ 2] => Some IHung
+  | SL [SZ 3; ws] => option_map INoObj (dL (dT3 dZ dF dZ) ws)
   | _ => None
   end.
 Definition d_case (s : sx) : option case :=
@@ -150,6 +153,12 @@ Definition check_case (cs : case) : Z :=
       let panicked := negb (k =? 3) in
       if negb (Bool.eqb panicked (spec_refused o)) then code_spec_violation
       else if k =? kind_of m then code_ok else code_model_mismatch
+  | INoObj ws =>
+      if spec_refused o then code_spec_violation
+      else if negb (forallb2 (fun (pt : wp) (w : Z * f64 * Z) => let '(n, sm, nq) := w in
+                               (n =? p_n pt) && fbits_eq sm (p_sum pt) && (nq =? 0))
+                             (write_points t0 [] 0 pzero false ops) ws) then code_spec_violation
+      else if kind_of m =? 3 then code_ok else code_model_mismatch
   | IWrites ws =>
       if spec_refused o then code_spec_violation
       else match m with
